@@ -61,6 +61,26 @@ func (c *counting) Run(ctx context.Context, deps core.AggregatorDeps) error {
 	return err
 }
 
+// netsample.Sample has no exported fields (jsonlines would print "{}"): a custom pandora reports its
+// own sample type to the jsonlines aggregator, here a view of the net sample of realistic size.
+type jsonView struct {
+	Tag   string `json:"tag"`
+	ID    uint64 `json:"id"`
+	Proto int    `json:"proto"`
+	Note  string `json:"note"`
+}
+
+type viewAdapter struct{ core.Aggregator }
+
+const note = "0123456789abcdef0123456789abcdef0123456789abcdef0123456789abcdef"
+
+func (v viewAdapter) Report(s core.Sample) {
+	if ns, ok := s.(*netsample.Sample); ok {
+		s = jsonView{Tag: ns.Tags(), ID: ns.ID(), Proto: ns.ProtoCode(), Note: note}
+	}
+	v.Aggregator.Report(s)
+}
+
 func wrap(a core.Aggregator) core.Aggregator {
 	dir := os.Getenv("VPANDORA_DIR")
 	if dir == "" {
@@ -89,7 +109,7 @@ func main() {
 		return wrap(netsample.WrapAggregator(a)), nil
 	}, netsample.DefaultPhoutConfig)
 	register.Aggregator("vjsonlines", func(conf aggregator.JSONLineAggregatorConfig) core.Aggregator {
-		return wrap(aggregator.NewJSONLinesAggregator(conf))
+		return wrap(viewAdapter{aggregator.NewJSONLinesAggregator(conf)})
 	}, aggregator.DefaultJSONLinesAggregatorConfig)
 
 	cli.Run()
